@@ -229,6 +229,12 @@ Open Scope string_scope.
 Eval vm_compute in show_sched (sys_of sc_blocked_stays) w_reader_remains.
 Eval vm_compute in show_sched (prefix_sys_of sc_rpc) w_poller_stranded.
 Eval vm_compute in show_sched (prefix_sys_of sc_rpc) w_poller_stranded_noclose.
+(* the crypto/ssh transport's Close as translated: the connection is closed whether or not closing
+   the session failed (F31), the error returned is the client's, else the session's *)
+From Scrapli Require Import DecideLang StdCloseSrc.
+Theorem C07_std_close_is_source : std_close_ok = true.
+Proof. exact std_close_is_source. Qed.
+Print Assumptions C07_std_close_is_source.
 Eval vm_compute in show_sched sys_fd1 w_fd_race.
 Eval vm_compute in show_sched (old_sys_of osc_second) ow_second.
 Eval vm_compute in show_sched (old_sys_of osc_ioerr) ow_ioerr.
